@@ -2,6 +2,7 @@ ID = "C11"
 LEVEL = "model_checking"
 HARNESS = "harness/c11_hash.py"
 MODE = "src"
+EXHAUSTIVE = True      # the whole finite input space is one symbolic query family (decided, not enumerated)
 EXPLANATION = "One symbolic challenge over the whole three-byte field; non-linear integer arithmetic decided by z3, plus an 11-way linear case split as a second route."
 BOUNDS = {"quick": "all 253^3 = 16,194,277 challenges (whole field symbolic); range obligations over all challenges 0..11,092,110",
           "thorough": "same domain; additionally the 11-way case split on (challenge+1) mod 11 re-decides the obligation with constant divisors"}
